@@ -156,7 +156,7 @@ Poll ==
                                                          + (IF slot[<<fm[1], "W">>] # 0 THEN 2 ELSE 0)}
            IN IF asked = want /\ Cardinality(asked) = nreq THEN TRUE ELSE PrintT(<<"IMPLDRIFT", l>>)
         \* C05: never blocks past the earliest timer deadline, rounded up to a millisecond
-        /\ (Timers # {}) => /\ Ev.timeout # -1
+        /\ (Timers # {}) => /\ Ev.timeout >= 0                                     \* (poll(2): any negative timeout waits forever)
                             /\ (Ev.timeout > 0 => TLess(TAdd(c0, Ms(Ev.timeout)), TAdd(IF TLeq(mind, c0) THEN c0 ELSE mind, <<0, 1000>>)))
         /\ sleeps => Ev.timeout # 0
         /\ Ev.blocked => (Ev.timeout = -1 /\ Timers = {} /\ ~RunnableNow)   \* blocks forever only with nothing runnable
